@@ -67,6 +67,7 @@ class Session:
 
         self.decryptor: Decryptor
         self.decryptor = None
+        self.tls_version = None
 
         self.handle_packet(packet)
 
@@ -375,7 +376,9 @@ class Session:
                     else:
                         self.tls_version = TlsVersion.TLS12
                 else:
+                    # unknown protocol version: nothing can be derived for this connection
                     self.can_decrypt = False
+                    return
         self.generate_keys(self.tls_version, self.ciphersuite, self.client_random, self.server_random)
 
     def handle_alert(self, alert_level):
